@@ -71,7 +71,7 @@ class ModelError(Exception):
     pass
 
 
-def run_model(lines: list[str], timeout: int = 600) -> list[str]:
+def run_model(lines: list[str], timeout: int = 600, driver: str = "Driver.lean") -> list[str]:
     """Pipe operations through the Lean driver; one output line per input line."""
     if not lines:
         return []
@@ -80,7 +80,7 @@ def run_model(lines: list[str], timeout: int = 600) -> list[str]:
         f.write("\n".join(lines) + "\n")
     with open(path, "rb") as inp:
         proc = subprocess.run(
-            ["lake", "env", "lean", "--run", "Driver.lean"],
+            ["lake", "env", "lean", "--run", driver],
             cwd=LEAN, stdin=inp, capture_output=True, timeout=timeout, check=False,
         )
     os.unlink(path)
